@@ -186,6 +186,18 @@ func c03Finder(run *Run, j *histJob) {
 	if ri.Headers > 1 || ri.AfterEnd {
 		run.Fail("C03:two-replies", "the downstream sender was given a second reply (or calls after end of stream)", replay)
 	}
+	// an upstream response that is in well before the global time-out (the only event of the history, not retriable, no per-try
+	// timer) must be the reply - whatever the send filters' pace
+	if st, at, ok := sp.soleInTimeResponse(); ok && inTimeDelivered(r, at) {
+		switch {
+		case !ri.Complete && r.Done && r.Gauge != 0:
+			run.Fail("C03:no-terminal-outcome", "the upstream answered in time, yet the worker left the state machine without any reply and without cleaning the stream", replay)
+			return
+		case ri.Complete && !(ri.FirstKind == "up" && ri.FirstCode == st):
+			run.Fail("C03:in-time-response-replaced-by-timeout", fmt.Sprintf("the upstream's %d arrived before the global time-out, yet the client was sent a %s reply with status %d", st, ri.FirstKind, ri.FirstCode), replay)
+			return
+		}
+	}
 	explained := sp.Oneway || sp.hasEvent("downreset") || sp.hasVerdict("term")
 	if !ri.Complete && !explained {
 		sig := "C03:silence"
@@ -230,6 +242,46 @@ func newAfterTerminate(r *Result) bool {
 		// check-then-act window - microseconds - is not after the decision; 2 ms separate the two for sure)
 		if x.Kind == "up.new" && t >= 0 && x.T > t+2000 {
 			return true
+		}
+	}
+	return false
+}
+
+// the history consists of one upstream response (status < 500, attempt 0) scheduled at least 15 ms before the configured global
+// time-out, with no per-try timer, no pool failure, no answering filter
+func (sp *Spec) soleInTimeResponse() (status, atMs int, ok bool) {
+	if len(sp.Events) != 1 || sp.Events[0].Kind != "upresp" || sp.Events[0].K != 0 || sp.Events[0].Status >= 500 || sp.Oneway || sp.Route != "forward" || sp.NoMatch || sp.NHosts == 0 {
+		return 0, 0, false
+	}
+	for _, p := range sp.Pool {
+		if p != "ok" {
+			return 0, 0, false
+		}
+	}
+	for _, f := range sp.Filters {
+		for _, v := range f.Verdicts {
+			if v != "continue" {
+				return 0, 0, false
+			}
+		}
+	}
+	gms, tms := sp.effectiveTimeouts()
+	if tms != 0 || sp.Events[0].AtMs+15 > gms {
+		return 0, 0, false
+	}
+	return sp.Events[0].Status, sp.Events[0].AtMs, true
+}
+
+// ... and it really was handed to the proxy at least 10 ms before the global timer's nominal expiry
+func inTimeDelivered(r *Result, atMs int) bool {
+	gms, _ := r.Spec.effectiveTimeouts()
+	var sent int64 = -1
+	for _, x := range r.Rec {
+		if x.Kind == "up.new" && x.K == 0 {
+			sent = x.T
+		}
+		if x.Kind == "ev.end" && x.Aux == "delivered" && sent >= 0 {
+			return x.T+10000 < sent+int64(gms)*1000
 		}
 	}
 	return false
@@ -433,6 +485,12 @@ func c03(args []string) int {
 		&Spec{Tag: "upfilter-reset-after-terminate", Route: "forward", NHosts: 2, RouteGlobalMs: 200,
 			Filters: []FilterSpec{{Phase: 0}, {Send: true, DelayMs: 30}},
 			Events:  []Event{{AtMs: 40, Kind: "terminate", Code: 403}, {AtMs: 55, Kind: "upreset", K: 0, Reason: "remotereset"}}},
+		&Spec{Tag: "in-time-response-held-by-send-filter", Route: "forward", NHosts: 2, RouteGlobalMs: 60,
+			Filters: []FilterSpec{{Send: true, DelayMs: 30}},
+			Events:  []Event{{AtMs: 40, Kind: "upresp", K: 0, Status: 200}}},
+		&Spec{Tag: "in-time-response-held-by-send-filter", Route: "forward", NHosts: 2, RouteGlobalMs: 60, HasData: true,
+			Filters: []FilterSpec{{Phase: 1}, {Send: true, DelayMs: 30}},
+			Events:  []Event{{AtMs: 40, Kind: "upresp", K: 0, Status: 404, Data: true, Trailers: true}}},
 		&Spec{Tag: "global-timer-lost-before-retry", Route: "forward", NHosts: 2, RouteGlobalMs: 60, RetryOn: true, NumRetries: 1,
 			Filters: []FilterSpec{{Send: true, DelayMs: 30}},
 			Events:  []Event{{AtMs: 40, Kind: "upresp", K: 0, Status: 503}}},
